@@ -23,6 +23,7 @@ import (
 // positioned discussion (GitLab).
 type Comment struct {
 	ID       int64  `json:"id"`
+	MR       int    `json:"mr,omitempty"` // GitLab: merge request the discussion belongs to
 	Thread   string `json:"thread,omitempty"` // GitLab discussion id
 	Author   int    `json:"author"`
 	Path     string `json:"path"`
@@ -80,9 +81,20 @@ type Forge struct {
 	FaultFn func(n int, op string) Fault
 	crashed bool
 	PerPage int
+	MRs     int // GitLab: open merge requests of the source branch (same diff, separate discussions)
 }
 
-func New(kind string) *Forge { return &Forge{Kind: kind, nextID: 100, PerPage: 100} }
+func New(kind string) *Forge { return &Forge{Kind: kind, nextID: 100, PerPage: 100, MRs: 1} }
+
+var mrRe = regexp.MustCompile(`/merge_requests/(\d+)/`)
+
+func mrOf(path string) int {
+	if m := mrRe.FindStringSubmatch(path); m != nil {
+		n, _ := strconv.Atoi(m[1])
+		return n
+	}
+	return 1
+}
 
 // BeginRun resets per-run fault state.
 func (f *Forge) BeginRun(round int) {
@@ -121,7 +133,11 @@ func (f *Forge) AddForeign(path string, line int, body string, general bool) {
 	f.mu.Lock()
 	defer f.mu.Unlock()
 	f.nextID++
-	f.Comments = append(f.Comments, &Comment{ID: f.nextID, Thread: fmt.Sprintf("d%d", f.nextID), Author: 99, Path: path, Line: line, Side: "RIGHT", Body: body, Round: f.Round, General: general})
+	mr := 0
+	if f.Kind == "gitlab" {
+		mr = 1
+	}
+	f.Comments = append(f.Comments, &Comment{MR: mr, ID: f.nextID, Thread: fmt.Sprintf("d%d", f.nextID), Author: 99, Path: path, Line: line, Side: "RIGHT", Body: body, Round: f.Round, General: general})
 }
 
 // ReplyInThread appends a note by somebody else to a discussion (GitLab) - the first note stays pint's.
@@ -239,6 +255,12 @@ func (f *Forge) ServeHTTP(w http.ResponseWriter, r *http.Request) {
 		w.WriteHeader(403)
 		_, _ = w.Write([]byte(`{"message":"API rate limit exceeded","documentation_url":"https://docs.github.com/rest/overview/resources-in-the-rest-api#rate-limiting"}`))
 		return
+	case "garbage":
+		record(200, false)
+		w.Header().Set("Content-Type", "application/json")
+		w.WriteHeader(200)
+		_, _ = w.Write([]byte(`{"id": 7, "userna`))
+		return
 	case "stall":
 		record(0, false)
 		<-r.Context().Done()
@@ -334,7 +356,11 @@ func (f *Forge) route(r *http.Request) (string, handlerFn) {
 		}
 	case f.Kind == "gitlab" && glMRs.MatchString(p):
 		return "list-mrs", func(*http.Request, []byte) (int, any, bool, map[string]string) {
-			return 200, []map[string]any{{"id": 1, "iid": 1, "state": "opened"}}, false, nil
+			out := []map[string]any{}
+			for i := 1; i <= f.MRs; i++ {
+				out = append(out, map[string]any{"id": i, "iid": i, "state": "opened"})
+			}
+			return 200, out, false, nil
 		}
 	case f.Kind == "gitlab" && glVersions.MatchString(p):
 		return "versions", func(*http.Request, []byte) (int, any, bool, map[string]string) {
@@ -484,7 +510,11 @@ func (f *Forge) glListDiscussions(r *http.Request, _ []byte) (int, any, bool, ma
 	f.mu.Lock()
 	defer f.mu.Unlock()
 	all := []map[string]any{}
+	mr := mrOf(r.URL.Path)
 	for _, c := range f.Comments {
+		if f.Kind == "gitlab" && c.MR != mr {
+			continue
+		}
 		note := map[string]any{"id": c.ID, "body": c.Body, "system": false, "author": map[string]any{"id": c.Author, "username": fmt.Sprintf("u%d", c.Author)}, "type": "DiffNote"}
 		if !c.General {
 			pos := map[string]any{"base_sha": f.Base, "head_sha": c.Commit, "start_sha": f.Base, "position_type": "text", "new_path": c.Path, "old_path": c.Path}
@@ -543,7 +573,7 @@ func (f *Forge) glCreateDiscussion(r *http.Request, body []byte) (int, any, bool
 	f.mu.Lock()
 	defer f.mu.Unlock()
 	f.nextID++
-	c := &Comment{ID: f.nextID, Thread: fmt.Sprintf("d%d", f.nextID), Author: PintUser, Body: req.Body, Round: f.Round}
+	c := &Comment{MR: mrOf(r.URL.Path), ID: f.nextID, Thread: fmt.Sprintf("d%d", f.nextID), Author: PintUser, Body: req.Body, Round: f.Round}
 	if req.Position == nil {
 		c.General = true
 	} else {
@@ -565,7 +595,7 @@ func (f *Forge) glDeleteNote(r *http.Request, _ []byte) (int, any, bool, map[str
 	f.mu.Lock()
 	defer f.mu.Unlock()
 	for i, c := range f.Comments {
-		if c.ID == id && c.Thread == m[1] {
+		if c.ID == id && c.Thread == m[1] && c.MR == mrOf(r.URL.Path) {
 			if c.Replies > 0 {
 				// the thread survives with the other people's notes; its first note is now theirs
 				c.Author = 99
